@@ -55,7 +55,8 @@ def evaluate(mod, cases, timeout, with_model=True):
         failing, coq_errors = C.check_cases_in_coq(
             mod.PROP, mod.MODEL, terms, shard=getattr(mod, "SHARD", 300),
             check_fn=getattr(mod, "CHECK_FN", "check_case"),
-            extra_imports=getattr(mod, "COQ_IMPORTS", ()))
+            extra_imports=getattr(mod, "COQ_IMPORTS", ()),
+            skipped_fn=getattr(mod, "SKIPPED_FN", None))
     disagreements = [term_idx[j] for j in failing]
     return obss, oracle_fail, disagreements, coq_errors, harness_err, len(terms)
 
@@ -168,6 +169,18 @@ def main(argv=None):
     if real_dis or coq_errors or harness_err:
         broken.append(("correspondence", {"disagreeing_cases": real_dis[:20], "coq_errors": coq_errors[:3],
                                           "harness_errors": harness_err[:5]}))
+    if real_dis and getattr(mod, "DIFFERENTIAL_IS_PROPERTY", False) and not violations:
+        # the property itself is "output equals the reference interpreter": a disagreeing
+        # recipe is the concrete failing input
+        i = real_dis[0]
+        small = shrink(mod, cases[i], single_fails("correspondence")) if not args.replay else cases[i]
+        p = C.write_replay(prop, seed, {"property": prop, "kind": "implementation-differs-from-reference-interpreter",
+                                        "message": "rows delivered by /repo differ from the Coq reference interpreter (model %s)" % mod.MODEL,
+                                        "case": small, "original_case": cases[i], "observed": obss[i],
+                                        "other_disagreeing_cases": len(real_dis), "seed": seed})
+        lines.append(f"VIOLATION property={prop} replay={p}")
+        violations.append(("differential", i, "differs from reference interpreter"))
+        exit_code = 1
     if broken and not violations:
         # directed search for a concrete failing input on the implementation
         found = None
@@ -245,6 +258,7 @@ def main(argv=None):
         "programs": len(cases),
         "disagreements_checked": n_terms,
         "disagreements_found": len(real_dis),
+        "outside_model_fragment": C.LAST_SKIPPED.get(prop, 0),
         "evaluations": len(cases),
         "distinct_nontrivial": len(nontrivial_keys),
         "rule": getattr(mod, "RULE", ""),
